@@ -93,7 +93,9 @@ def case_from_tlc(obj, h, g):
         idx = list(range(1, n + 1))
         runs = [idx, idx[::-1], idx[:1], idx]
     fresh = [False, True, True, False] if runs else []
-    return {"case": "tlc-" + h, "files": files, "layout": int(h[:6], 16) % 10000, "runs": runs, "fresh": fresh}
+    # every other history is preceded, in the same process, by the analysis of a slightly different project
+    return {"case": "tlc-" + h, "files": files, "layout": int(h[:6], 16) % 10000, "runs": runs, "fresh": fresh,
+            "prelude": bool(runs) and int(h[2:4], 16) % 2 == 0}
 
 
 def nontrivial(rec):
